@@ -56,7 +56,12 @@ struct Shared {
 }
 
 fn tx_key(bytes: &[u8]) -> Option<TxKey> {
-    let tx = RawTx::decode(bytes).ok()?;
+    // a blob submission broadcasts a BlobTx wrapping the signed transaction
+    let inner = match celestia_types::blob::RawBlobTx::decode(bytes) {
+        Ok(b) if b.type_id == "BLOB" => b.tx,
+        _ => bytes.to_vec(),
+    };
+    let tx = RawTx::decode(inner.as_slice()).ok()?;
     let sub: u64 = tx.body.as_ref()?.memo.strip_prefix('s')?.parse().ok()?;
     let ai = tx.auth_info.as_ref()?;
     let seq = ai.signer_infos.first()?.sequence;
@@ -222,7 +227,7 @@ impl World {
         format!("ev={ev} st={st}")
     }
 
-    fn start(&self, sub: u64, gl: Option<u64>, gp: Option<u64>) -> String {
+    fn start(&self, sub: u64, gl: Option<u64>, gp: Option<u64>, blob: bool) -> String {
         {
             let mut s = self.shared.lock().unwrap();
             if s.started.contains(&sub) {
@@ -237,8 +242,15 @@ impl World {
         if let Some(q) = gp {
             cfg = cfg.with_gas_price(q as f64 / 4.0);
         }
-        let msg = MsgSend { from_address: self.address.to_string(), to_address: self.address.to_string(), amount: vec![Coin::utia(1).into()] };
-        let call = self.client.submit_message(msg, cfg).metadata("x-sub", &sub.to_string()).expect("metadata");
+        let call = if blob {
+            // sign_and_broadcast_blobs: the same loop around a MsgPayForBlobs / BlobTx
+            let ns = celestia_types::nmt::Namespace::new_v0(b"verif").unwrap();
+            let b = celestia_types::Blob::new(ns, vec![sub as u8; 100], None, celestia_types::AppVersion::V1).unwrap();
+            self.client.submit_blobs(&[b], cfg).metadata("x-sub", &sub.to_string()).expect("metadata")
+        } else {
+            let msg = MsgSend { from_address: self.address.to_string(), to_address: self.address.to_string(), amount: vec![Coin::utia(1).into()] };
+            self.client.submit_message(msg, cfg).metadata("x-sub", &sub.to_string()).expect("metadata")
+        };
         let sh = self.shared.clone();
         let _guard = self.rt.enter();
         self.rt.spawn(async move {
@@ -413,7 +425,7 @@ impl Prop for C43 {
         "C43"
     }
     fn rule(&self) -> &'static str {
-        "histories of one real GrpcClient with 1..6 concurrent submit_message calls (gas limit/price set, price only \
+        "histories of one real GrpcClient with 1..6 concurrent submit_message / submit_blobs calls (gas limit/price set, price only \
          estimated, or both estimated through a simulated signed tx), driven op by op: start a submission, release the \
          node's answer to one pending request (latest block, account, gas price, gas estimate, broadcast, tx status) \
          with a random script of answers (ok, sequence mismatch with an expected value in a TxResponse or in a gRPC \
@@ -433,12 +445,14 @@ impl Prop for C43 {
             let steps = rng.usize(5, if tier == Tier::Thorough { 120 } else { 60 });
             // during initialisation (latest block + account) only one submission runs in most histories
             let concurrent_init = hno % 4 == 0;
+            // burst histories: all submissions are started right away, so that most of them queue on the mutex
+            let burst = hno % 3 == 1;
             for _ in 0..steps {
                 let pend: Vec<(u64, char)> = w.shared.lock().unwrap().pending.iter().map(|(i, p)| (*i, p.1)).collect();
                 let init_done = w.shared.lock().unwrap().txs.len() > 0;
                 let can_start = (next_sub as usize) < k && (next_sub == 0 || init_done || concurrent_init);
                 let choice = rng.below(10);
-                let line = if can_start && (pend.is_empty() || choice < 3) {
+                let line = if can_start && (pend.is_empty() || choice < if burst { 8 } else { 3 }) {
                     let (gl, gp) = match rng.below(4) {
                         0 => (None, None),
                         1 => (None, Some(rng.range(0, 9))),
@@ -446,8 +460,11 @@ impl Prop for C43 {
                         _ => (Some(rng.range(0, 300)), Some(rng.range(0, 9))),
                     };
                     let f = |x: Option<u64>| x.map(|v| v.to_string()).unwrap_or("-".into());
-                    let l = format!("start sub={next_sub} gl={} gp={}", f(gl), f(gp));
-                    w.start(next_sub, gl, gp);
+                    // blob submissions only once the chain state is known (submit_blobs asks for the app
+                    // version outside the per-call context, so that request could not be attributed)
+                    let blob = init_done && rng.chance(2, 5);
+                    let l = format!("start sub={next_sub} gl={} gp={} kind={}", f(gl), f(gp), if blob { "blob" } else { "msg" });
+                    w.start(next_sub, gl, gp, blob);
                     next_sub += 1;
                     l
                 } else if !pend.is_empty() && choice < 9 {
@@ -537,7 +554,7 @@ impl Prop for C43 {
                 };
                 match op {
                     "start" => match (arg_u64(line, "sub"), opt("gl"), opt("gp")) {
-                        (Some(i), Some(gl), Some(gp)) => w.start(i, gl, gp),
+                        (Some(i), Some(gl), Some(gp)) => w.start(i, gl, gp, arg(line, "kind") == Some("blob")),
                         _ => "bad-op".into(),
                     },
                     "ans" => match (arg_u64(line, "sub"), arg(line, "a")) {
